@@ -1,11 +1,59 @@
 import NmVerif.Proto
 import NmVerif.Basic
 import NmVerif.NDA
+import NmVerif.Index.MachineAddr
 namespace NmVerif.Driver.C01
 open NmVerif NmVerif.Proto
 
+/-- element type names of harness/h_c01w.cpp -/
+def parseTy : String → Option ITy
+  | "i32" => some ITy.i32 | "u32" => some ITy.u32 | "i64" => some ITy.i64 | "u64" => some ITy.u64 | _ => none
+
+/-- the values can be stored in a container of element type `t` and of the requested kind
+    (`std::array` ranks 1..6, run-time tuples of rank 1..3 and `static_vector` capacity 8 are what the harness instantiates) -/
+def storable (t : ITy) (kind : String) (v : List Nat) : Bool :=
+  v.all (fun x => decide (t.Fits x)) &&
+    (match kind with
+     | "vec" => true | "sv" => v.length ≤ 8 | "arr" => 1 ≤ v.length && v.length ≤ 6
+     | "tup" => 1 ≤ v.length && v.length ≤ 3 | _ => false)
+
+def fmtOpt : Option (List Nat) → String
+  | some l => s!"ok {fmtNats l}"
+  | none => "ub"
+
 def handle : Handler := fun op a =>
   match op with
+  | "w_strides" => orBad do
+      let t ← (a.get? "ty").bind parseTy
+      let k ← a.get? "kind"
+      let s ← a.nats "shape"
+      if !storable t k s then none
+      pure (fmtOpt (mStrides t s))
+  | "w_offset" => orBad do
+      let ti ← (a.get? "tyi").bind parseTy
+      let ts ← (a.get? "tys").bind parseTy
+      let ki ← a.get? "ki"
+      let ks ← a.get? "ks"
+      let i ← a.nats "idx"
+      let st ← a.nats "strides"
+      if i.length != st.length || !storable ti ki i || !storable ts ks st then none
+      pure s!"ok {mOffset i st}"
+  | "w_indices" => orBad do
+      let t ← (a.get? "ty").bind parseTy
+      let k ← a.get? "kind"
+      let s ← a.nats "shape"
+      let off ← a.nat "off"
+      let same := (a.get? "offty") == some "same"
+      if !storable t k s || off ≥ SZ || (same && !decide (t.Fits off)) then none
+      pure (fmtOpt (mNdindex t s off))
+  | "w_indices3" => orBad do
+      let t ← (a.get? "ty").bind parseTy
+      let k ← a.get? "kind"
+      let s ← a.nats "shape"
+      let st ← a.nats "strides"
+      let off ← a.nat "off"
+      if !storable t k s || !storable t k st || s.length != st.length || off ≥ SZ then none
+      pure (fmtOpt (mIndices t off s st))
   | "strides" => orBad do
       let s ← a.nats "shape"
       pure s!"ok {fmtNats (strides s)}"
